@@ -4,7 +4,8 @@
 import glob, json, os, re, shutil, subprocess, sys
 pid, i = sys.argv[1], sys.argv[2]
 checks = [pid] + sys.argv[3:]
-WT, OUT = "/tmp/mut/%s" % pid, "/tmp/mut/%s-out" % pid
+BASE = os.environ.get("MUT_BASE", "/tmp/mut")
+WT, OUT = "%s/%s" % (BASE, pid), "%s/%s-out" % (BASE, pid)
 ENV = "GOFLAGS=-mod=mod GOPROXY=off GOSUMDB=off GOTOOLCHAIN=local"
 def sh(c, t=1200):
     p = subprocess.run(c, shell=True, stdout=subprocess.PIPE, stderr=subprocess.STDOUT, timeout=t)
@@ -64,7 +65,7 @@ try:
         print(c, "->", o.strip().replace("\n", " || ")[-400:])
 finally:
     sh("git -C /repo checkout -- . && git -C /repo clean -fdq")
-sid = "%s-%s" % (pid, i)
+sid = "%s-%d" % (pid, int(i) + int(os.environ.get("SEED_OFFSET", "0")))
 d = "/verif/seeded/%s" % sid
 if confirmed:
     os.makedirs(d, exist_ok=True)
